@@ -8,7 +8,8 @@ RULE = ("accepted vectors x the five substitution families of the statement, eac
         "eligible metrics: (a) ND Modified -> base value, (b) ND -> declared equivalent, (c) v4 supplemental "
         "add/change/remove, (d) change of a base metric overridden by a defined Modified metric, (e) "
         "temporal/environmental metrics vs base score, environmental vs temporal; scores compared on the real "
-        "code and model-vs-code; distinct = distinct (version, family, variant string)")
+        "code and model-vs-code; distinct = distinct (version, family, variant string)"
+        " + starting points also from the special families (corners, caps, low end, full spelling, rounding ties); look-alike constructions in between")
 ASSUMPTIONS = []
 
 EQUIV = {"2": {"E": "H", "RL": "U", "RC": "C", "CDP": "N", "TD": "H", "CR": "M", "IR": "M", "AR": "M"},
@@ -151,7 +152,9 @@ def replay(data):
     r = data["replay"]
     x, ex = scores_of(r["ver"], r["a"])
     y, ey = scores_of(r["ver"], r["b"])
-    if x is None or y is None:
-        return False, "rejected: %s %s" % (ex, ey)
+    if x is None:
+        return obs.rejected_verdict(r["ver"], r["a"], ex)
+    if y is None:
+        return obs.rejected_verdict(r["ver"], r["b"], ey)
     ok = all(x[i] is None or x[i] == y[i] for i in r["slots"])
     return ok, "scores(%r)=%r scores(%r)=%r (slots %r must agree)" % (r["a"], x, r["b"], y, r["slots"])
